@@ -9,6 +9,7 @@ import FwdVerif.Driver.C17
 import FwdVerif.Driver.C20
 import FwdVerif.Driver.C03
 import FwdVerif.Driver.C08
+import FwdVerif.Driver.C18
 
 open FwdVerif
 
@@ -21,6 +22,7 @@ def dispatch (line : String) : String :=
   | "C20" :: rest => C20.handle rest
   | "C03" :: rest => C03.handle rest
   | "C08" :: rest => C08.handle rest
+  | "C18" :: rest => C18.handle rest
   | ["ping"] => "pong"
   | _ => "bad-op"
 
